@@ -691,7 +691,17 @@ def compute_inp_hashes(
     all_inp_hashes = {}
     for path in sorted(inp_hashes):
         old_file_hash = inp_hashes[path]
-        new_file_hash = old_file_hash.refreshed(path, cancel_event)
+        try:
+            new_file_hash = old_file_hash.refreshed(path, cancel_event)
+        except (HashFailedError, OSError) as exc:
+            # The input is no longer a readable regular file (replaced by a directory,
+            # permissions withdrawn): it changed underneath the step like any other modification,
+            # so it must be reported as such instead of failing the hash computation as a whole,
+            # which would fail the step without draining the scheduler.
+            unreadable = str(exc)
+            new_file_hash = FileHash.unknown()
+        else:
+            unreadable = None
         all_inp_hashes[path] = new_file_hash
         if new_file_hash != old_file_hash:
             # Collect changed hashes, so callers can process them efficiently.
@@ -699,7 +709,9 @@ def compute_inp_hashes(
             # If an input hash has changed,
             # corresponding input files have changed or disappeared unexpectedly,
             # which must be reported.
-            if new_file_hash.is_unknown:
+            if unreadable is not None:
+                messages.append(f"Input changed unexpectedly: {path} ({unreadable})")
+            elif new_file_hash.is_unknown:
                 messages.append(f"Input vanished unexpectedly: {path}")
             else:
                 messages.append(
